@@ -132,7 +132,7 @@ var DefPrefixes = []string{"", "", "", "", "ns", "n2"}
 // Text classes the suite never samples.
 var DefTexts = []string{
 	"", "", "t", "hello world", " pad ", "\tx\n", "x\ty", "a\nb", "<&>\"'", "a<b", "&amp;", "&lt;tag&gt;", "&#x41;", "&#65;",
-	"a]]>b", "<![CDATA[x]]>", "é世界", "it's", "say \"hi\"", "x>y", "1<2", "AT&T", "100%", "%d %s", "%%", "\u00a0", "\u00a0nbsp\u00a0", "\u3000wide\u2003", "x\u0085", "  ", "\n", "\t\n ", "a\rb",
+	"a]]>b", "<![CDATA[x]]>", "é世界", "it's", "say \"hi\"", "x>y", "1<2", "AT&T", "100%", "%d %s", "%%", "x > y", "a >\n  b", "\u00a0", "\u00a0nbsp\u00a0", "\u3000wide\u2003", "x\u0085", "  ", "\n", "\t\n ", "a\rb",
 	"1", "-0", "1.50", "1e3", "0x1p-2", "1_000", "1e999", "+5", "007", "9223372036854775807", "9223372036854775808",
 	"-9223372036854775808", "18446744073709551615", "18446744073709551616", ".5", "5.",
 	"NaN", "nan", "NAN", "Inf", "inf", "+Inf", "-Inf", "-inf", "+inf", "Infinity", "-infinity", "+INFINITY", "iNf",
